@@ -121,7 +121,7 @@ func envSeed() int64 {
 // scaled by the same ratio).  Properties not listed run the count they declare.
 var thoroughCaps = map[string]int{
 	"C01": 640, "C02": 50000, "C03": 16, "C04": 64, "C05": 2400, "C06": 400, "C07": 1500, "C09": 1500,
-	"C11": 15000, "C12": 3000, "C13": 10000, "C15": 500, "C16": 3000, "C20": 2500, "C21": 100000,
+	"C11": 15000, "C12": 3000, "C13": 10000, "C15": 500, "C16": 3000, "C20": 1500, "C21": 100000,
 	"C22": 800, "C23": 600, "C24": 2000, "C25": 4000, "C33": 1500, "C39": 40000, "C45": 1500,
 	"C47": 1200, "C50": 130, "C52": 600, "C53": 300, "C54": 10000,
 }
